@@ -629,7 +629,105 @@ func c03MapsSuite(r *Result, rng *rand.Rand, tier string) {
 	}
 }
 
+// ---- e2e: Create from a slice of maps on a bare table (no model ⇒ LastInsertId arithmetic, key stored as "@id"),
+// with nil "placeholder" entries (each of them is a row of NULLs / defaults and consumes a key) ----
+type c03MapsTableInput struct {
+	Stock   bool   `json:"stock_dialector"`
+	Ptr     bool   `json:"ptr"`
+	Max     int64  `json:"max"`
+	Present []bool `json:"present"` // false = nil map
+}
+
+func c03RunMapsTable(in c03MapsTableInput) (bad []string) {
+	db, sqlDB := c03Open(in.Stock, nil)
+	defer sqlDB.Close()
+	if e := db.AutoMigrate(&BFRow{}); e != nil {
+		return []string{"AutoMigrate: " + e.Error()}
+	}
+	if in.Max > 0 {
+		if e := db.Create(&BFRow{ID: in.Max, P: "seed"}).Error; e != nil {
+			return []string{"seed row: " + e.Error()}
+		}
+	}
+	ms := make([]map[string]interface{}, len(in.Present))
+	for i, p := range in.Present {
+		if p {
+			ms[i] = map[string]interface{}{"p": fmt.Sprint("m", i)}
+		}
+	}
+	var err error
+	if in.Ptr {
+		err = db.Table("bf_rows").Create(&ms).Error
+	} else {
+		err = db.Table("bf_rows").Create(ms).Error
+	}
+	if err != nil {
+		return []string{"Create: " + err.Error()}
+	}
+	if len(ms) != len(in.Present) {
+		bad = append(bad, fmt.Sprintf("Create changed the length of the caller's slice: %d -> %d", len(in.Present), len(ms)))
+	}
+	var cnt int64
+	db.Table("bf_rows").Where("p IS NULL OR p <> ?", "seed").Count(&cnt)
+	if int(cnt) != len(in.Present) {
+		bad = append(bad, fmt.Sprintf("%d rows written for %d slice entries", cnt, len(in.Present)))
+	}
+	for i, p := range in.Present {
+		if !p || i >= len(ms) {
+			continue
+		}
+		var id int64
+		db.Raw("SELECT id FROM bf_rows WHERE p = ?", fmt.Sprint("m", i)).Scan(&id)
+		got, ok := ms[i]["@id"]
+		if !ok {
+			bad = append(bad, fmt.Sprintf("map %d carries no @id after Create (its row has id %d)", i, id))
+		} else if fmt.Sprint(got) != fmt.Sprint(id) {
+			bad = append(bad, fmt.Sprintf("map %d carries @id=%v but its data is stored in row id=%d", i, got, id))
+		}
+	}
+	return bad
+}
+
+func c03MapsTableSuite(r *Result, rng *rand.Rand, tier string) {
+	n := 120
+	if tier == "thorough" {
+		n = 2000
+	}
+	for i := 0; i < n && !expired(); i++ {
+		in := c03MapsTableInput{Stock: rng.Intn(2) == 0, Ptr: rng.Intn(2) == 0, Max: int64(rng.Intn(3) * (1 + rng.Intn(30)))}
+		ln := 1 + rng.Intn(7)
+		nils := rng.Intn(3) // 0: none, 1: few, 2: many
+		for j := 0; j < ln; j++ {
+			in.Present = append(in.Present, !(nils > 0 && rng.Intn(4-nils) == 0))
+		}
+		in.Present[rng.Intn(ln)] = true // at least one real map (an all-nil slice has no columns)
+		hasNil := false
+		for _, p := range in.Present {
+			hasNil = hasNil || !p
+		}
+		r.H("maps-table.nil-entries", fmt.Sprint(hasNil))
+		r.H("maps-table.len", fmt.Sprint(ln))
+		r.Case("maps-table", canon(in), ln > 1)
+		if bad := c03RunMapsTable(in); len(bad) > 0 {
+			r.H("maps-table.verdict", "violation")
+			r.Violate(Violation{Kind: "e2e", Suite: "maps-table", Input: in, Observed: bad, Expected: "every map carries (as @id) the key of the row that stores its data"})
+		} else {
+			r.H("maps-table.verdict", "ok")
+		}
+	}
+}
+
 func init() {
+	register("C03", c03MapsTableSuite)
+	replayers["C03/maps-table"] = func(r *Result, input json.RawMessage) {
+		var in c03MapsTableInput
+		if json.Unmarshal(input, &in) != nil {
+			return
+		}
+		if bad := c03RunMapsTable(in); len(bad) > 0 {
+			r.Violate(Violation{Kind: "e2e", Suite: "maps-table", Input: in, Observed: bad})
+		}
+	}
 	register("C03", c03MapsSuite)
 	replayers["C03/create-maps"] = func(r *Result, input json.RawMessage) { r.Note("create-maps replays are correspondence-only") }
 	register("C03", c03LoopSuite)
